@@ -779,4 +779,7 @@ func TestVerifC16Home(t *testing.T) {
 		k := 4 + r.Intn(out.Scale(5, 10))
 		h.runGen(out, k, func(int) *c16tReq { return h.gen(r) }, nil)
 	}
+
+	// round 6: the configuration space of the TLS section through the real glue
+	c16kConfigSpace(t, out, mt, web, rnd)
 }
